@@ -7,6 +7,7 @@ import (
 	"fmt"
 	"io"
 	"sort"
+	"strings"
 
 	proto "github.com/golang/protobuf/proto"
 	"github.com/openacid/low/iohelper"
@@ -26,7 +27,7 @@ import (
 // ---------------------------------------------------------------------------
 
 type FaultsPlan struct {
-	Family   string              `json:"family"` // trunc | wfail | corrupt | rderr | crash
+	Family   string              `json:"family"` // trunc | wfail | corrupt | rderr | crash | giant
 	Msgs     []MsgSpec           `json:"msgs"`
 	Policies []simio.ChunkPolicy `json:"policies,omitempty"`
 	// ErrKind: WHICH error value the failing writer returns ("" = a private
@@ -40,6 +41,7 @@ type FaultsPlan struct {
 	Off     int64      `json:"off,omitempty"`    // disk offset for the real-stack variants
 	Extra   []int      `json:"extra,omitempty"`  // corrupt: numbers of trailing bytes R; crash: see below
 	Crash   *CrashPlan `json:"crash,omitempty"`
+	Giant   *GiantSpec `json:"giant,omitempty"` // family "giant" (frames_giant.go)
 }
 
 type FramesFaults struct{}
@@ -60,6 +62,10 @@ func (FramesFaults) Generate(seed uint64, tier string) engine.Plan {
 	p := &FaultsPlan{Seed: r.Uint64()}
 	p.Family = r.PickStr("trunc", "trunc", "wfail", "wfail", "corrupt", "corrupt", "rderr", "crash", "crash")
 	nm := 1 + r.Intn(4)
+	if strings.HasSuffix(tier, "/rare1") {
+		// placed at one fixed run index per 1024 (engine tier suffix): costly
+		return genGiant(r, p)
+	}
 	if p.Family == "crash" {
 		return genCrash(r, p)
 	}
@@ -301,6 +307,9 @@ func (FramesFaults) Execute(pl engine.Plan, c *engine.RunCtx) *engine.Failure {
 	st.Inc("family." + p.Family)
 	if p.Family == "crash" {
 		return execCrash(p, c)
+	}
+	if p.Family == "giant" {
+		return execGiant(p, c)
 	}
 	frames, f := buildFrames("C07", p.Msgs, c, &step)
 	if f != nil {
@@ -815,6 +824,14 @@ func (FramesFaults) Shrink(pl engine.Plan) []engine.Plan {
 	}
 	if p.Family == "crash" {
 		return shrinkCrash(p)
+	}
+	if p.Family == "giant" {
+		if p.ErrKind != "" {
+			q := clone()
+			q.ErrKind = ""
+			out = append(out, q)
+		}
+		return out
 	}
 	if len(p.Msgs) > 1 {
 		for i := range p.Msgs {
